@@ -11,6 +11,12 @@ CLAIMED = {
    design="5/C02",
    note="Trusted: spec/VtTable.tla, Utf8.tla, VtParser.tla as the independent reading of Williams' parser with the crate's documented deviations; TLC; the harness' Perform recorder. Bounded: strings <= 3 (quick) / 4 (thorough) over 43 class representatives, state graph to depth 5/6 x all 256 next bytes, streams are grammar samples.",
    technique="TLA+ spec (VtParser) + TLC: spec-level invariants/bisimulation, TLC-generated behaviours replayed into anstyle-parse, recorded traces validated by TLC"),
+ "C01": dict(
+   level="model_checking",
+   text="TLC explores the product of the reference visibility (projection of the VtParser specification) with the two-phase scanner design over the full byte-class alphabet with a chunk boundary allowed anywhere - a finite automaton, so the design is decided for inputs of any length and any chunking; each named deviation must yield a counterexample. The specification is bound to the code both ways: TLC emits the requirement vector (keep/drop/optional per byte) of every byte string and every UTF-8 string of length N, replayed through every strip API and every chunking; seeded grammar streams through StripBytes/StripStr/StripStream with seeded chunkings are recorded and every call is validated by the Trace_Strip specification.",
+   design="5/C01",
+   note="Trusted: spec/Strip.tla (reference = projection of VtParser, checked by MC_StripRef), TLC, pointer-offset observation of returned pieces. Bytes of a malformed UTF-8 character are optional in the output except forbidden controls. Known finding F3 (forbidden byte kept after a malformed character) is reported as KNOWN-FINDING.",
+   technique="TLA+ spec (Strip over VtTable/Utf8) + TLC: unbounded product automaton, TLC-generated requirement vectors replayed into the strip APIs, recorded traces validated by TLC"),
 }
 PENDING_REASON = "check not built yet in this revision of /verif (planned with the TLA+ specification, see DESIGN.md section 5); not claimed until its quick command exists"
 
